@@ -297,7 +297,11 @@ func (ix *Index) ReceiveBlob(ctx context.Context, blobRef blob.Ref, source io.Re
 
 	// TODO(bradfitz): this removeAllMissingEdges need not hold ix.Lock
 	// and could be done in the background.
-	ix.removeAllMissingEdges(blobRef)
+	if _, stillWaiting := ix.needs[blobRef]; !stillWaiting {
+		// (A delete claim whose target isn't indexed yet was only partially
+		// indexed above; its missing edge must survive a restart.)
+		ix.removeAllMissingEdges(blobRef)
+	}
 
 	// TODO(bradfitz): log levels? These are generally noisy
 	// (especially in tests, like search/handler_test), but I
